@@ -116,6 +116,19 @@ PROPS = {
                 "non-trivial = an accepted operation",
         "trusted": ["mint-one-token-and-drop-authority and freezing are token-program CPIs and are not executed; open_position's own handlers are covered through validate_tick_range only"],
     },
+    "C12": {
+        "lean_modules": ["WP.Props.C12"],
+        "lean_support": ["WP.Props.C13"],
+        "families": [("pmod", 40000, 2000000), ("poff", 40000, 3000000), ("hist", 6000, 150000), ("dyn", 10000, 500000), ("reset", 20000, 500000)],
+        "history": True,
+        "rule": "pmod: one modify-liquidity on an ARBITRARY pool / position / bound-tick state (boundary-biased u128/i128 values, wrapped accumulators, all reward-initialisation prefixes, "
+                "fixed and dynamic arrays, bounds in one or two arrays, increases / decreases / full removal, timestamps before / at / after the last update) run by the Anchor managers and by the "
+                "Pinocchio port on identical bytes, compared with each other (result, error, every account byte, size / rent decisions) and with the model; poff: the division-free tick-offset routine "
+                "against the Anchor checks for boundary and random ticks / spacings / start indexes; hist: every modify of every history is run by both implementations on copies and compared; "
+                "dyn: tick arrays maintained by either accessor or both alternately; reset: reset_position_range by both; non-trivial = a successful operation",
+        "trusted": ["token transfer, account realloc and event emission around the ported functions are not executed; the instruction prologues are C04/C15",
+                    "start indexes are multiples of the spacing because tick arrays are only created through check_is_valid_start_tick (validStart_mod); for other start indexes the two offset routines differ"],
+    },
     "C13": {
         "lean_modules": ["WP.Props.C13"],
         "lean_support": [],
